@@ -21,4 +21,5 @@ CONSTANTS
 SPECIFICATION MCSpec
 VIEW View
 INVARIANT Emit
+PROPERTY IsolationMC
 CONSTRAINT Bound
